@@ -90,6 +90,11 @@ def pool(seed, tier):
              {'kind': 'scat2', 'biort': 'near_sym_a', 'qshift': 'qshift_a', 'magbias': 1e-2, 'colour': False, 'shape': [12, 20]},
              {'kind': 'scat2', 'biort': 'near_sym_a', 'qshift': 'qshift_a', 'magbias': 1e-2, 'colour': False, 'shape': [9, 13]},
              {'kind': 'scat1', 'biort': 'near_sym_a', 'qshift': 'qshift_a', 'magbias': 1e-2, 'colour': False, 'shape': [5, 7]}]
+    # filter banks given as tuples, with an odd number of taps (no pywt wavelet has odd length)
+    odd = [[0.02, -0.05, 0.3, 0.7, 0.35, -0.08, 0.01], [0.01, 0.06, -0.4, 0.75, -0.33, -0.07, 0.02]]
+    cfgs += [{'kind': 'dwt2f', 'wave': odd, 'mode': 'periodization', 'J': 1, 'shape': [8, 8]},
+             {'kind': 'dwt2f', 'wave': odd, 'mode': 'zero', 'J': 2, 'shape': [8, 10]},
+             {'kind': 'dwt1f', 'wave': odd, 'mode': 'periodization', 'J': 2, 'shape': [16]}]
     # raising calls
     cfgs += [{'kind': 'dwt1f', 'wave': 'db8', 'mode': 'reflect', 'J': 1, 'shape': [5], 'raises': True},
              {'kind': 'dwt2f', 'wave': 'db8', 'mode': 'reflect', 'J': 2, 'shape': [6, 6], 'raises': True}]
